@@ -21,6 +21,12 @@ of the open findings that are active, and must reproduce every status, every fin
 set of damaged library names exactly; with no quirks it must reproduce the ideal.
 Attribution: a failing item is a known finding only if the quirk-model reproduces the step exactly
 and switching that quirk off in the model changes that very item.
+
+Re-binding (slice S6 + `random_rebind_history`): ONE unbound function (Parameter[...] arguments: bool,
+Qint, Qlist / Tuple under sum any all len max min, a for loop, indexing; with and without defs=[...])
+is bound several times with different values, other operations in between.  Each bind must give what
+the same bind of a freshly made unbound function gives in a pristine interpreter, and the unbound
+object must keep the parsed source and the definitions it was made with.
 """
 from __future__ import annotations
 
@@ -35,7 +41,8 @@ from . import c10_worker as W
 from .common import Ctx, Result, REPO, VERIF
 
 LEVEL = "proof"
-QUIRKS = ["groverMutatesOracle", "oraclizeRenames", "execIntoModuleGlobals", "evalSeesLocals"]
+QUIRKS = ["groverMutatesOracle", "oraclizeRenames", "execIntoModuleGlobals", "evalSeesLocals", "bindOrigWithoutDefs",
+          "defShadowsAnnotation"]
 POOL = W.POOL
 NPROC = min(16, os.cpu_count() or 4)
 
@@ -191,7 +198,15 @@ def ideal_tree(ops, j, infos):
             kids.append(ideal_tree(ops, d, infos) if d is not None else {"missing": c})
         return {"src": ["pool", op["prog"]], "kids": kids}
     if op["k"] == "bind":
-        return {"src": ["bound", ops[op["ref"]]["prog"], cj(op["params"])], "kids": []}
+        src = ops[op["ref"]]
+        if src["k"] != "compile":
+            return None
+        # free names of the bound source = the definitions the unbound function was built with
+        kids = []
+        for c in POOL[src["prog"]]["callees"]:
+            d = next((r for r in src["defs"] if pristine_name(ops, r) == c), None)
+            kids.append(ideal_tree(ops, d, infos) if d is not None else {"missing": c})
+        return {"src": ["bound", src["prog"], cj(op["params"])], "kids": kids}
     if op["k"] in ("oraclize", "grover") and op.get("elem") is not None:
         r = op["ref"]
         n = pristine_name(ops, r)
@@ -296,7 +311,134 @@ def systematic(thorough=True):
     for a in algs:
         for b in algs:
             H.append(("pair-%s-%s" % (a, b), [comp(pidx("oracle", 1)), mk(a, 0), mk(b, 0), mk("export_qiskit", 2), mk("decompile", 0)]))
+    H += rebind_systematic(thorough)
     return H
+
+
+def bind(ref, params):
+    return dict(k="bind", ref=ref, params=dict(params))
+
+
+def param_progs(with_defs=None):
+    return [i for i, p in enumerate(POOL) if p["params"] and (with_defs is None or bool(p["callees"]) == with_defs)]
+
+
+def rebind_systematic(thorough=True):
+    """S6 the SAME unbound object bound several times with different values, other operations in
+    between: every program with Parameter[...] arguments (lists / tuples under sum any all len max min,
+    a for loop, indexing; scalar parameters), every unbound function built with defs=[...].  Each bind
+    is compared (like every operation) with the same bind of a freshly made unbound function in a
+    pristine interpreter, and the unbound object itself must stay what it was when it was made."""
+    H = []
+    cons = ["truth_table", "grover", "dj", "oraclize", "export_qasm", "repr", "simon", "decompile", "grover_e", "qc_copy"]
+    # S6a no definitions: values v0 v1 (consumer of the first result) v0 v2 v1; the same program compiled
+    # once more (from the callable) and both objects bound alternately
+    for n, i in enumerate(param_progs(with_defs=False)):
+        v = POOL[i]["pvals"]
+        v2 = v[2 % len(v)]
+        H.append(("rebind-" + POOL[i]["name"],
+                  [comp(i), bind(0, v[0]), bind(0, v[1]), mk(cons[n % len(cons)], 1), bind(0, v[0]), bind(0, v2),
+                   bind(0, v[1]), comp(i, callable_=True), bind(7, v[1]), bind(0, v2), bind(7, v[0])]))
+        if thorough:
+            # every ordered pair of values as the first two binds of a fresh object
+            for a in range(len(v)):
+                for b in range(len(v)):
+                    if a != b and (a, b) != (0, 1):
+                        H.append(("rebind-pair-" + POOL[i]["name"], [comp(i), bind(0, v[a]), bind(0, v[b]), bind(0, v[a])]))
+    # S6b a bind that raises (wrong number of values, unknown name) leaves nothing behind
+    ps = pidx("psum")
+    vs = POOL[ps]["pvals"]
+    H.append(("rebind-raises", [comp(ps), bind(0, {}), bind(0, vs[0]), bind(0, {"zz": [1, 0]}), bind(0, vs[1]),
+                                bind(0, {"c": [1, 0], "d": 1}), bind(0, vs[0])]))
+    # S6c unbound functions built with defs=[...]: every bind translates with the same definition objects
+    ga, gb, gc, gp = pidx("g", 0), pidx("g", 1), pidx("g", 2), pidx("g", 3)
+    fb, fq = pidx("f", 0), pidx("f", 1)
+    h0, top = pidx("h", 0), pidx("top")
+    pk, pq, pt = pidx("pk"), pidx("pq"), pidx("pt")
+    kv, mv, tv, gv = (POOL[x]["pvals"] for x in (pk, pq, pt, gp))
+    H += [
+        ("rebind-defs", [comp(ga), comp(pk, [0]), bind(1, kv[0]), bind(1, kv[1]), mk("truth_table", 2), bind(1, kv[0]),
+                         bind(1, kv[2]), mk("truth_table", 0), comp(h0, [0]), bind(1, kv[1])]),
+        # the definition is used elsewhere (Grover, oraclize, another caller) between the binds
+        ("rebind-defs", [comp(gb), comp(pk, [0]), bind(1, kv[1]), mk("grover", 0), bind(1, kv[0]), mk("oraclize", 0),
+                         bind(1, kv[2]), comp(h0, [0]), bind(1, kv[1]), mk("dj", 2)]),
+        # same program, two unbound objects over different definitions called g, bound alternately
+        ("rebind-defs", [comp(ga), comp(gb), comp(pk, [0]), comp(pk, [1]), bind(2, kv[0]), bind(3, kv[0]), bind(2, kv[1]),
+                         bind(3, kv[1]), bind(2, kv[0])]),
+        # a definition whose type makes the bind raise, then one that does not
+        ("rebind-defs", [comp(gc), comp(ga), comp(pk, [0]), comp(pk, [1]), bind(2, kv[0]), bind(3, kv[0]), bind(2, kv[1]),
+                         bind(3, kv[1])]),
+        # two definitions and a list parameter
+        ("rebind-defs", [comp(ga), comp(fq), comp(pq, [0, 1]), bind(2, mv[0]), bind(2, mv[1]), mk("grover", 3), bind(2, mv[2]),
+                         bind(2, mv[0]), comp(pidx("k"), [0, 1]), bind(2, mv[1])]),
+        ("rebind-defs", [comp(gb), comp(fb), comp(fq), comp(pq, [0, 1]), comp(pq, [0, 2]), bind(3, mv[1]), bind(4, mv[1]),
+                         bind(4, mv[2]), bind(4, mv[1])]),
+        # a missing definition: every bind raises, the same way
+        ("rebind-defs", [comp(ga), comp(pq, [0]), bind(1, mv[1]), bind(1, mv[2]), comp(pk), bind(4, kv[0]), bind(4, kv[1])]),
+        # definitions two levels deep
+        ("rebind-defs", [comp(ga), comp(h0, [0]), comp(pt, [1]), bind(2, tv[0]), bind(2, tv[1]), comp(top, [1]), bind(2, tv[0]),
+                         mk("truth_table", 1)]),
+        # a definition called like a type the annotations of the source mention, then a proper one
+        ("rebind-defs", [comp(pidx("Qint")), comp(pk, [0]), comp(ga), comp(pk, [2]), bind(3, kv[0]), comp(pq, [0, 2]),
+                         bind(3, kv[1])]),
+        # a bound function as a definition: of a caller, and of another unbound function
+        ("rebind-defs", [comp(gp), bind(0, gv[0]), comp(h0, [1]), bind(0, gv[1]), comp(h0, [3]), comp(pk, [1]), bind(5, kv[0]),
+                         bind(5, kv[1]), bind(0, gv[0]), comp(pk, [3]), bind(9, kv[1]), bind(5, kv[1])]),
+    ]
+    return H
+
+
+def random_rebind_history(rng, n):
+    """random variant of S6: one or two unbound objects (with their definitions, if the program calls
+    any), bound again and again with values drawn from the program's candidates, with consumers of the
+    results, uses of the definitions and recompilations in between"""
+    ops, unb, qfs = [], [], []
+
+    def add_unbound():
+        i = rng.choice(param_progs())
+        defs = []
+        for c in POOL[i]["callees"]:
+            if c == "h":
+                g = rng.choice([pidx("g", 0), pidx("g", 1)])
+                ops.append(comp(g))
+                ops.append(comp(pidx("h", rng.randrange(2)), [len(ops) - 1]))
+                qfs.extend([len(ops) - 2, len(ops) - 1])
+            else:
+                cands = [j for j, p in enumerate(POOL) if p["name"] == c and not p["params"]]
+                ops.append(comp(rng.choice(cands)))
+                qfs.append(len(ops) - 1)
+            defs.append(len(ops) - 1)
+        ops.append(comp(i, defs, callable_=(not defs and rng.random() < 0.2)))
+        unb.append(len(ops) - 1)
+
+    add_unbound()
+    while len(ops) < n:
+        r = rng.random()
+        if r < 0.55 or not qfs:
+            u = rng.choice(unb)
+            ops.append(bind(u, rng.choice(POOL[ops[u]["prog"]]["pvals"])))
+            qfs.append(len(ops) - 1)
+        elif r < 0.65 and len(unb) < 2:
+            add_unbound()
+        elif r < 0.75:
+            # recompile something that shares a name with what is around
+            j = rng.choice(qfs)
+            nm = pristine_name(ops, j)
+            cands = [i for i, p in enumerate(POOL) if p["name"] == nm and not p["params"] and p["level"] == 0]
+            if cands:
+                ops.append(comp(rng.choice(cands)))
+                qfs.append(len(ops) - 1)
+            else:
+                ops.append(mk("truth_table", j))
+        else:
+            c = rng.choice(CONSUMERS)
+            j = rng.choice(qfs)
+            if c in ("oraclize", "grover_e") and pristine_name(ops, j) in DSL_BUILTINS:
+                c = "simon"
+            ops.append(mk(c, j, rng))
+            if c == "oraclize":
+                qfs.append(len(ops) - 1)
+    return ops
 
 
 # names the qlasskit DSL itself gives a meaning to: a CALL of a user function with such a name is
@@ -328,7 +470,8 @@ def random_history(rng, n):
         elif r < 0.40:
             unb = [j for j, k in enumerate(kinds) if k == "unb"]
             if unb:
-                ops.append(dict(k="bind", ref=rng.choice(unb), params={"p": rng.random() < 0.5}))
+                u = rng.choice(unb)
+                ops.append(dict(k="bind", ref=u, params=dict(rng.choice(POOL[ops[u]["prog"]]["pvals"]))))
                 kinds.append("qf")
             else:
                 ops.append(dict(k="secret_oracle", n=rng.choice([2, 3]), secret=rng.randrange(4)))
@@ -353,7 +496,8 @@ def strip_code_fp(fp):
     if fp["k"] == "qf":
         return {k: fp[k] for k in ("k", "name", "sig", "circ", "inq", "outq", "orig")}
     if fp["k"] == "unb":
-        return {"k": "unb", "name": fp["name"]}
+        # what an unbound function keeps between binds: its parsed source and the definitions
+        return {"k": "unb", "name": fp["name"], "tmpl": fp.get("tmpl"), "held": fp.get("held")}
     return {"k": "alg", "cls": fp["cls"], "circ": fp["circ"], "outq": fp["outq"], "sub": fp["sub"],
             "own": strip_code_fp(fp["own"])}
 
@@ -456,9 +600,11 @@ class Analysis:
                     plans.append((key, dict(job="history", ops=sub + [o]), "last", op))
             if k == "bind":
                 src = ops[op["ref"]]
-                if src["k"] == "compile":
+                if src["k"] == "compile" and all(fresh_info[r] is not None for r in src["defs"]):
+                    # what a bind gives is a function of (program, values, definitions held)
                     sub, _ = sub_history(ops, i)
-                    plans.append(("B%d|" % src["prog"] + cj(op["params"]), dict(job="history", ops=sub), "last", op))
+                    dk = "".join(def_key(pristine_name(ops, r), fresh_info[r]["sig"]) for r in src["defs"])
+                    plans.append(("B%d|" % src["prog"] + cj(op["params"]) + dk, dict(job="history", ops=sub), "last", op))
             if k == "secret_oracle":
                 plans.append(("S%d|%d" % (op["n"], op["secret"]), dict(job="history", ops=[op]), "last", op))
             # update the real names (for the next operations)
@@ -517,7 +663,7 @@ def get_path(d, path):
 
 
 FIELDS = [("name",), ("sig",), ("circ", "name"), ("circ", "nq"), ("circ", "gates"), ("circ", "qmap"), ("inq",),
-          ("outq",), ("orig",), ("k",), ("cls",), ("sub",), ("own",)]
+          ("outq",), ("orig",), ("k",), ("cls",), ("sub",), ("own",), ("tmpl",), ("held",)]
 
 
 def diff_fields(a, b, ideal=False):
@@ -538,8 +684,12 @@ def diff_fields(a, b, ideal=False):
 def run_batch(ctx, ch, res, hists, labels, active, findings_by_quirk, collect=None):
     """analyse a batch of histories completely; report into res.  `collect` (list) receives, per
     history, the list of violating items (used by witness_fails / replay)."""
+    import time
+
+    tm = [time.time()]
     an = Analysis(ctx, ch, active)
     real, base = an.baselines(hists)
+    tm.append(time.time())
     if an.libnames is None:
         ln = ch.run([dict(job="libnames")])[0]
         an.libnames = set(ln["names"]) | set(ln["builtins"])
@@ -552,6 +702,7 @@ def run_batch(ctx, ch, res, hists, labels, active, findings_by_quirk, collect=No
         all_plans.append(plans)
         plan_jobs += [p[1] for p in plans]
     plan_outs = [untwin_all(o) for o in ch.run([dict(j, twin_all=True) for j in plan_jobs])]
+    tm.append(time.time())
     # model runs
     qsets = [list(active), []] + [[x for x in active if x != q] for q in active] + [[q] for q in active]
     reqs, pos = [], []
@@ -570,6 +721,7 @@ def run_batch(ctx, ch, res, hists, labels, active, findings_by_quirk, collect=No
         reqs += model_requests(ops, table, qsets)
         pos.append(table)
     replies = ctx.model(reqs)
+    tm.append(time.time())
     # reference tables for every original_f tree that occurs (ideal + all model runs)
     trees = {}
 
@@ -633,6 +785,10 @@ def run_batch(ctx, ch, res, hists, labels, active, findings_by_quirk, collect=No
                             findings_by_quirk)
         if collect is not None:
             collect.append(items)
+    tm.append(time.time())
+    if len(hists) > 1:
+        ctx.log("[C10] batch of %d histories: real+baselines %.1fs, table %.1fs, model (%d runs) %.1fs, reference+analysis %.1fs"
+                % (len(hists), tm[1] - tm[0], tm[2] - tm[1], len(reqs), tm[3] - tm[2], tm[4] - tm[3]))
 
 
 def analyse_one(ctx, res, an, ops, label, real, base, itrees, tree_table, reps, qsets, conv, fbq):
@@ -690,6 +846,10 @@ def analyse_one(ctx, res, an, ops, label, real, base, itrees, tree_table, reps, 
                 mst = rep["steps"][i]
                 for j, fp in mst["fps"].items():
                     cur_models[qi][int(j)] = conv(fp)
+                    if cur_models[qi][int(j)] is not None and cur_models[qi][int(j)]["k"] == "unb":
+                        # the model carries program + definitions; their text is the freshly made object's
+                        idl = ideal_fp.get(int(j)) or {}
+                        cur_models[qi][int(j)].update(tmpl=idl.get("tmpl"), held=idl.get("held"))
             mst = reps[0]["steps"][i]
             m_damaged = sorted(x[0] for x in mst["ns"] if x[0] in an.libnames)
             if mst["result"] != st["status"]:
@@ -794,6 +954,9 @@ def run(ctx: Ctx) -> Result:
             n = ctx.rng.randint(3, max_len)
             hists.append(random_history(ctx.rng, n))
             labels.append("random")
+        for k in range(60 if ctx.thorough else 10):
+            hists.append(random_rebind_history(ctx.rng, ctx.rng.randint(5, 14 if ctx.thorough else 9)))
+            labels.append("random-rebind")
         for ops, lab in zip(hists, labels):
             res.count(dict(ops=ops), nontrivial=(len(ops) >= 2 and any(op_refs(o) for o in ops)), bucket=lab.split("-")[0])
             for o in ops:
